@@ -102,7 +102,13 @@ Definition eval_red (op : redop) (x : value) : res value :=
                      | ROr  => VBits (fst (h_reduce_or n u)) (snd (h_reduce_or n u))
                      | RXor => VBits (fst (h_reduce_xor n u)) (snd (h_reduce_xor n u))
                      end)
-  | VInt _ => Err EType
+  | VInt z =>     (* helpers.py: reduce_and needs .nbits; reduce_or / reduce_xor only use int(value) *)
+      match op with
+      | RAnd => Err EType
+      | ROr => Ok (VBits 1 (b2z (negb (z =? 0))))
+      | RXor => if z <? 0 then Err EOther      (* the popcount loop does not terminate on a negative int *)
+                else Ok (VBits 1 (Z.land (popcount_loop (Z.to_nat (Z.log2 z + 1)) z 0) 1))
+      end
   end.
 
 Definition eval_cast (n : Z) (x : value) : res value := vbits (spec_init n (to_operand x) false).
